@@ -25,8 +25,9 @@
    Agreement clause ("the two alternative-deletion methods report the same optimum on strict profiles"): both are
    compared with the same reference min_alt_del, which by min_alt_del_correct is THE minimum, so no further theorem is
    needed; AltDel_strict shows that on strict profiles the specification is C03's SP of the remaining rankings. *)
-From Coq Require Import List Arith NArith Bool Permutation.
-From PrefVerif Require Import Lib.Val Lib.Contig Lib.Subsets Model.SP Model.Deletion Proofs.SP Proofs.Deletion.
+From Coq Require Import List Arith NArith ZArith Bool Permutation.
+From PrefVerif Require Import Lib.Val Lib.Contig Lib.Subsets Model.SP Model.Deletion Model.ILPEnc
+                              Proofs.SP Proofs.Deletion Proofs.ILPEnc.
 Import ListNotations.
 
 (* ---- the reference optimisers return the minimum ---------------------------------------------- *)
@@ -193,6 +194,91 @@ Proof.
 Qed.
 Print Assumptions cert_relabel.
 
+(* ---- the ILP encodings (deepening: encoding proved, only the solver trusted) ------------------- *)
+(* Model/ILPEnc.v mirrors the builders of the three ILP functions (variables + bounds, constraints x2, objective);
+   the correspondence compares the mirrored model with the model python-mip actually receives (multiset of
+   constraints).  `feasible M s` = the assignment s respects every bound and every constraint of M;
+   `ilp_opt M z` = z is the optimal objective value of M (attained, and a lower bound on every feasible assignment);
+   decode_axis / decode_voters / decode_alts are the read-back loops of the code. *)
+
+(* CORE 1: totality + position constraints + bounds make LeftOf the strict order of Pos (so Pos is injective) *)
+Theorem ilp_pos_order_core : forall (s : asg) (m : nat),
+  leftof_binary s m -> pos_range s m -> total_sem s m -> pos_sem s m ->
+  forall x y, (x < m)%nat -> (y < m)%nat -> x <> y ->
+    (s (LeftOf x y) = 1%Z <-> (s (Pos x) < s (Pos y))%Z) /\ (s (LeftOf x y) = 0%Z <-> (s (Pos y) < s (Pos x))%Z).
+Proof. exact Proofs.ILPEnc.pos_order_core. Qed.
+Print Assumptions ilp_pos_order_core.
+
+(* the transitivity constraints are implied by the others *)
+Theorem ilp_trans_redundant : forall s m, structural s m -> trans_sem s m.
+Proof. exact Proofs.ILPEnc.trans_redundant. Qed.
+Print Assumptions ilp_trans_redundant.
+
+(* is_single_peaked_ILP (C11): feasible assignment -> the decoded axis is a permutation passing the axis test;
+   every such axis is the decoding of a feasible assignment; feasibility <-> SPw *)
+Theorem ilp_sp_sound : forall alts p s, NoDup alts -> Forall (complete_on alts) p ->
+  feasible (sp_ilp alts p) s ->
+  Permutation alts (decode_axis alts s) /\ sp_axis_profile p (decode_axis alts s) = true.
+Proof. exact Proofs.ILPEnc.ilp_sp_sound. Qed.
+Print Assumptions ilp_sp_sound.
+
+Theorem ilp_sp_complete : forall alts p axis, NoDup alts -> Forall (complete_on alts) p ->
+  Permutation alts axis -> sp_axis_profile p axis = true ->
+  exists s, feasible (sp_ilp alts p) s /\ decode_axis alts s = axis.
+Proof. exact Proofs.ILPEnc.ilp_sp_complete. Qed.
+Print Assumptions ilp_sp_complete.
+
+Theorem ilp_sp_feasible_iff : forall alts p, NoDup alts -> Forall (complete_on alts) p ->
+  ((exists s, feasible (sp_ilp alts p) s) <-> SPw alts p).
+Proof. exact Proofs.ILPEnc.ilp_sp_feasible_iff. Qed.
+Print Assumptions ilp_sp_feasible_iff.
+
+(* approx_SP_voter_deletion_ILP: a feasible assignment has objective = number of deleted voters and decodes to a
+   certificate accepted by cert_vot; every accepted certificate of size k comes from a feasible assignment of
+   objective k; hence the ILP optimum is min_vot_del *)
+Theorem ilp_votdel_sound : forall alts p s, NoDup alts -> Forall (complete_on alts) p ->
+  feasible (votdel_ilp alts p) s ->
+  let V := decode_voters (length p) s in
+  objective (votdel_ilp alts p) s = Z.of_nat (length V) /\
+  cert_vot alts p (length V) (decode_axis alts s) V = true.
+Proof. exact Proofs.ILPEnc.ilp_votdel_sound. Qed.
+Print Assumptions ilp_votdel_sound.
+
+Theorem ilp_votdel_complete : forall alts p k axis V, NoDup alts -> Forall (complete_on alts) p ->
+  cert_vot alts p k axis V = true ->
+  exists s, feasible (votdel_ilp alts p) s /\ objective (votdel_ilp alts p) s = Z.of_nat k /\
+            decode_axis alts s = axis /\ (forall v, In v (decode_voters (length p) s) <-> In v V).
+Proof. exact Proofs.ILPEnc.ilp_votdel_complete. Qed.
+Print Assumptions ilp_votdel_complete.
+
+Theorem ilp_votdel_optimum : forall alts p z, NoDup alts -> Forall (complete_on alts) p ->
+  (ilp_opt (votdel_ilp alts p) z <-> z = Z.of_nat (min_vot_del alts p)).
+Proof. exact Proofs.ILPEnc.ilp_votdel_optimum. Qed.
+Print Assumptions ilp_votdel_optimum.
+
+(* approx_SP_alternative_deletion_ILP.  In the converse direction the certificate's axis may be partial (dynamic
+   programme) or full: the assignment places the deleted alternatives at the right end of the axis, and agrees with
+   the certificate on the remaining alternatives *)
+Theorem ilp_altdel_sound : forall alts p s, NoDup alts -> Forall (complete_on alts) p ->
+  feasible (altdel_ilp alts p) s ->
+  let D := decode_alts alts s in
+  objective (altdel_ilp alts p) s = Z.of_nat (length D) /\
+  cert_alt alts p (length D) (decode_axis alts s) D = true.
+Proof. exact Proofs.ILPEnc.ilp_altdel_sound. Qed.
+Print Assumptions ilp_altdel_sound.
+
+Theorem ilp_altdel_complete : forall alts p k axis D, NoDup alts -> Forall (complete_on alts) p ->
+  cert_alt alts p k axis D = true ->
+  exists s, feasible (altdel_ilp alts p) s /\ objective (altdel_ilp alts p) s = Z.of_nat k /\
+            keepN D (decode_axis alts s) = keepN D axis /\ (forall x, In x (decode_alts alts s) <-> In x D).
+Proof. exact Proofs.ILPEnc.ilp_altdel_complete. Qed.
+Print Assumptions ilp_altdel_complete.
+
+Theorem ilp_altdel_optimum : forall alts p z, NoDup alts -> Forall (complete_on alts) p ->
+  (ilp_opt (altdel_ilp alts p) z <-> z = Z.of_nat (min_alt_del alts p)).
+Proof. exact Proofs.ILPEnc.ilp_altdel_optimum. Qed.
+Print Assumptions ilp_altdel_optimum.
+
 (* ---- non-vacuity ------------------------------------------------------------------------------ *)
 Open Scope N_scope.
 
@@ -224,3 +310,16 @@ Proof.
   cbv zeta. split; [apply Proofs.SP.complete_profile_b; reflexivity|].
   repeat split; vm_compute; reflexivity.
 Qed.
+
+(* the mirrored voter-deletion ILP of the toc example: the assignment built from the axis 1 2 3 4 with voter 2
+   deleted is feasible with objective 1 and decodes back to that axis; deleting nobody is infeasible on that axis *)
+Example C12_example_ilp :
+  let alts := [1;2;3;4] in
+  let p := [ [[1;2];[3];[4]] ; [[3;4];[2];[1]] ; [[1;4];[2;3]] ; [[2;3];[1;4]] ] in
+  let s := mk_asg (posn_axis alts [1;2;3;4]) (fun v => Nat.eqb v 2) (fun _ => false) in
+  feasibleb (votdel_ilp alts p) s = true /\ objective (votdel_ilp alts p) s = 1%Z /\
+  decode_axis alts s = [1;2;3;4] /\ decode_voters 4 s = [2%nat] /\
+  length (i_cstrs (votdel_ilp alts p)) = 82%nat /\
+  feasibleb (votdel_ilp alts p) (mk_asg (posn_axis alts [1;2;3;4]) (fun _ => false) (fun _ => false)) = false /\
+  feasibleb (sp_ilp alts p) (mk_asg (posn_axis alts [1;2;3;4]) (fun _ => false) (fun _ => false)) = false.
+Proof. cbv zeta. repeat split; vm_compute; reflexivity. Qed.
